@@ -28,6 +28,21 @@ class Untr(Exception):
 
 
 # ------------------------------------------------------------------------------------------------ AST loading
+RUNS = [0]
+
+
+def rename_ids(o, pre):
+    if isinstance(o, dict):
+        for k, v in o.items():
+            if k in ('id', 'referencedMemberDecl', 'previousDecl', 'parentDeclContextId') and isinstance(v, str) and v.startswith('0x'):
+                o[k] = pre + v
+            else:
+                rename_ids(v, pre)
+    elif isinstance(o, list):
+        for x in o:
+            rename_ids(x, pre)
+
+
 def clang_dump(fname, filt):
     cmd = ['clang++', '-std=c++11', '-fsyntax-only', '-DESP_PLATFORM', '-I' + os.path.join(VERIF, 'harness', 'fake_esp'),
            '-I' + os.path.join(REPO, 'src'), '-Xclang', '-ast-dump=json', '-Xclang', '-ast-dump-filter=' + filt,
@@ -47,6 +62,8 @@ def clang_dump(fname, filt):
             continue
         o, i = dec.raw_decode(out, i)
         objs.append(o)
+    RUNS[0] += 1
+    rename_ids(objs, 'r%d:' % RUNS[0])
     return objs
 
 
@@ -105,8 +122,8 @@ class World:
         self.enums = {}      # name -> {'ct': CT, 'values': [(name, value)]}
         self.records = {}    # name -> node (complete definition)
         self.alias = {}      # typedef/using name -> underlying type string
-        self.methods = {}    # decl id -> method node (with body if inline)
-        self.byloc = {}
+        self.vars = {}       # global const variables: name -> VarDecl node
+        self.unknown_types = set()
 
     def add(self, objs):
         for o in objs:
@@ -145,6 +162,8 @@ class World:
                 if c.get('kind') in ('CXXMethodDecl', 'CXXConstructorDecl'):
                     self.visit(c)
                     c['_parent'] = o['name']
+        elif k == 'VarDecl' and o.get('name') and o.get('inner'):
+            self.vars.setdefault(o['name'], o)
         elif k in ('TypeAliasDecl', 'TypedefDecl') and o.get('name'):
             t = o.get('type', {})
             self.alias.setdefault(o['name'], t.get('desugaredQualType') or t.get('qualType'))
@@ -167,6 +186,8 @@ class World:
         for pre in ('enum ', 'struct ', 'union ', 'class '):
             if t.startswith(pre):
                 t = t[len(pre):]
+        if '::' in t:
+            t = t.split('::')[-1]
         seen = 0
         while t in self.alias and seen < 10 and t not in BUILTIN:
             t = re.sub(r'\bconst\b', '', self.alias[t]).strip()
@@ -193,6 +214,8 @@ class World:
         if t in std:
             w, s, b = BUILTIN[std[t]]
             return ('int', CT(w, s, b, None, t))
+        if re.fullmatch(r'\w+', t):
+            self.unknown_types.add(t)
         raise Untr('type %s' % tname)
 
     def typeof(self, node):
@@ -760,36 +783,15 @@ class Exec:
         raise Untr('expression %s' % k)
 
     def float_literal(self, n):
+        """clang prints a floating literal with enough digits to round-trip in the literal's own format; re-round there"""
         ty = self.w.typeof(n)
-        txt = self.src_text(n)
-        if txt is None:
-            fr = Fraction(float(n['value']))
-        else:
-            fr = literal_fraction(txt)
+        from decimal import Decimal
+        fr = Fraction(Decimal(n['value']))
         if ty[0] == 'longdouble':
-            fr = round_frac(fr, 64, -16382, 16383)     # x87 extended literal, converted to double afterwards
-            return ('ld', fr)
+            return ('ld', round_frac(fr, 64, -16382, 16383))     # x87 extended literal, converted to double afterwards
         if ty[0] == 'float':
             return ('flt', round_frac(fr, 24, -126, 127))
         return DblV(('DConst', double_bits_of_fraction(fr)))
-
-    def src_text(self, n):
-        r = n.get('range', {})
-        b, e = r.get('begin', {}), r.get('end', {})
-        if 'spellingLoc' in b:
-            b = b['spellingLoc']
-        if 'spellingLoc' in e:
-            e = e['spellingLoc']
-        if 'offset' not in b or 'offset' not in e:
-            return None
-        f = b.get('file') or self.c.cur_file
-        if b.get('file'):
-            self.c.cur_file = b['file']
-        try:
-            data = SRC_CACHE.setdefault(f, open(f, 'rb').read())
-        except (OSError, TypeError):
-            return None
-        return data[b['offset']:e['offset'] + e.get('tokLen', 1)].decode('latin1')
 
     def enum_const(self, name):
         for en in self.w.enums.values():
@@ -799,13 +801,22 @@ class Exec:
         raise Untr('enumerator %s' % name)
 
     def global_const(self, rd):
-        name = rd.get('name')
-        if name in GLOBAL_CONSTS:
-            kind, val = GLOBAL_CONSTS[name]
-            if kind == 'double':
-                return DblV(('DConst', dbits(val)))
-            ty = self.w.resolve(kind)
-            return IntV(('Const', val), ty[1])
+        """const globals of the headers (N2kDoubleNA, N2kUInt8NA ...): evaluate the initialiser found in the AST"""
+        vd = self.w.vars.get(rd.get('name'))
+        if vd is None or 'const' not in vd['type']['qualType']:
+            return None
+        init = [x for x in vd.get('inner', []) if x.get('kind') not in ('FullComment',)]
+        if not init:
+            return None
+        ty = self.w.resolve(vd['type'].get('desugaredQualType') or vd['type']['qualType'])
+        v = self.ev(init[0])
+        if ty[0] == 'int' and isinstance(v, IntV) and is_const(v.e):
+            return IntV(mk_cast(ty[1], v.e), ty[1])
+        if ty[0] == 'double':
+            if isinstance(v, DblV) and v.d[0] == 'DConst':
+                return v
+            if isinstance(v, IntV) and is_const(v.e):
+                return DblV(('DConst', double_bits_of_fraction(Fraction(v.e[1]))))
         return None
 
     def as_bool(self, v):
@@ -818,6 +829,8 @@ class Exec:
         inner = n['inner'][-1]
         c = self.c
         if ck == 'LValueToRValue':
+            if inner.get('kind') == 'DeclRefExpr' and inner['referencedDecl']['id'] not in c.env:
+                return self.ev(inner)
             loc = self.lvalue(inner)
             if loc.ty[0] == 'msgfield':
                 return self.ev(inner)
@@ -1213,6 +1226,11 @@ class Exec:
                         f = g
                         break
         if f is None:
+            for g in self.w.funcs.values():
+                if g.get('kind') == 'FunctionDecl' and g.get('name') == rd.get('name') and g['type']['qualType'] == rd.get('type', {}).get('qualType'):
+                    f = g
+                    break
+        if f is None:
             raise Untr('call of %s' % rd.get('name'))
         return self.inline(f, args)
 
@@ -1494,7 +1512,227 @@ class Exec:
         return c
 
 
-SRC_CACHE = {}
-GLOBAL_CONSTS = {'N2kDoubleNA': ('double', -1e9), 'N2kUInt8NA': ('unsigned char', 0xff), 'N2kInt8NA': ('signed char', 0x7f),
-                 'N2kUInt16NA': ('unsigned short', 0xffff), 'N2kInt16NA': ('short', 0x7fff), 'N2kUInt32NA': ('unsigned int', 0xffffffff),
-                 'N2kInt32NA': ('int', 0x7fffffff), 'N2kUInt64NA': ('unsigned long', (1 << 64) - 1), 'N2kInt64NA': ('long', (1 << 63) - 1)}
+
+
+# ------------------------------------------------------------------------------------------------ Coq printing
+def zs(v):
+    return str(v) if v >= 0 else '(%d)' % v
+
+
+def bs(b):
+    return 'true' if b else 'false'
+
+
+def coq_d(d):
+    return '(%s %s)' % (d[0], d[1] if d[0] != 'DConst' else zs(d[1]))
+
+
+def coq_e(e):
+    k = e[0]
+    if k == 'Const':
+        return '(EConst %s)' % zs(e[1])
+    if k == 'Arg':
+        return '(EArg %d)' % e[1]
+    if k == 'Slot':
+        return '(ESlot %d)' % e[1]
+    if k == 'Pgn':
+        return 'EPgn'
+    if k == 'DataLen':
+        return 'EDataLen'
+    if k in ('And', 'Or', 'Xor', 'Add', 'Sub', 'Mul', 'Div', 'Eq', 'Ne', 'Lt', 'Le'):
+        return '(E%s %s %s)' % (k, coq_e(e[1]), coq_e(e[2]))
+    if k in ('Shl', 'Shr'):
+        return '(E%s %s %d)' % (k, coq_e(e[1]), e[2])
+    if k in ('Not', 'Bool', 'LNot'):
+        return '(E%s %s)' % (k, coq_e(e[1]))
+    if k == 'Cast':
+        return '(ECast %d %s %s)' % (e[1], bs(e[2]), coq_e(e[3]))
+    if k == 'Cond':
+        return '(ECond %s %s %s)' % (coq_e(e[1]), coq_e(e[2]), coq_e(e[3]))
+    if k == 'D2I':
+        return '(ED2I %d %s %s)' % (e[1], bs(e[2]), coq_d(e[3]))
+    raise Untr('no Coq form for %s' % k)
+
+
+def coq_seq(items, ctor_skip, ctor_seq, f):
+    if not items:
+        return ctor_skip
+    parts = [f(x) for x in items]
+    s = parts[-1]
+    for p in reversed(parts[:-1]):
+        s = '(%s %s\n    %s)' % (ctor_seq, p, s)
+    return s
+
+
+def coq_w(s):
+    k = s[0]
+    if k == 'WInt':
+        return '(WInt %d %s)' % (s[1], coq_e(s[2]))
+    if k == 'WDouble':
+        return '(WDouble %d %s %s %s)' % (s[1], bs(s[2]), zs(s[3]), coq_d(s[4]))
+    if k in ('WStr', 'WAISStr', 'WVarStr'):
+        return '(%s %d %d)' % (k, s[1], s[2])
+    if k == 'If':
+        return '(WIf %s %s %s)' % (coq_e(s[1]), coq_ws(s[2]), coq_ws(s[3]))
+    raise Untr('statement %s in a setter' % k)
+
+
+def coq_ws(items):
+    return coq_seq(items, 'WSkip', 'WSeq', coq_w)
+
+
+def coq_rd(r):
+    k = r[0]
+    if k == 'RInt':
+        return '(RInt %d %s %s)' % (r[1], bs(r[2]), zs(r[3]))
+    if k == 'RDouble':
+        return '(RDouble %d %s %s %s)' % (r[1], bs(r[2]), zs(r[3]), zs(r[4]))
+    if k == 'RStr':
+        return '(RStr %s %d %d)' % (coq_e(r[1]), r[2], r[3])
+    if k == 'RVarStr':
+        return '(RVarStr %s %d)' % (coq_e(r[1]), r[2])
+    raise Untr('read %s' % k)
+
+
+def coq_p(s):
+    k = s[0]
+    if k == 'Read':
+        return '(PRead %d %s)' % (s[1], coq_rd(s[2]))
+    if k == 'SetIdx':
+        return '(PSetIdx %s)' % coq_e(s[1])
+    if k == 'AddIdx':
+        return '(PAddIdx %s)' % coq_e(s[1])
+    if k == 'OutI':
+        return '(POutI %d %s)' % (s[1], coq_e(s[2]))
+    if k == 'OutD':
+        return '(POutD %d %s)' % (s[1], coq_d(s[2]))
+    if k == 'OutT':
+        return '(POutT %d %d)' % (s[1], s[2])
+    if k == 'If':
+        return '(PIf %s %s %s)' % (coq_e(s[1]), coq_ps(s[2]), coq_ps(s[3]))
+    if k == 'Ret':
+        return '(PRet %s)' % coq_e(s[1])
+    raise Untr('statement %s in a parser' % k)
+
+
+def coq_ps(items):
+    return coq_seq(items, 'PSkip', 'PSeq', coq_p)
+
+
+# ------------------------------------------------------------------------------------------------ function table
+class Fn:
+    pass
+
+
+def func_kind(name):
+    if name.startswith('Set'):
+        return 'S'
+    if name.startswith('Parse'):
+        return 'P'
+    return 'A'
+
+
+def collect(world):
+    """target functions: definitions named Set*/Parse*/Append* with a tN2kMsg first parameter; deduplicated by location"""
+    seen, fl = set(), []
+    for f in world.funcs.values():
+        if f.get('kind') != 'FunctionDecl':
+            continue
+        name = f.get('name', '')
+        if not re.match(r'(Set|Parse|Append)', name):
+            continue
+        ps = [p for p in f.get('inner', []) if p.get('kind') == 'ParmVarDecl']
+        if not ps or 'tN2kMsg' not in ps[0]['type']['qualType']:
+            continue
+        mn = f.get('mangledName', name)
+        if mn in seen:
+            continue
+        seen.add(mn)
+        fl.append(f)
+    return fl
+
+
+def file_of(world, f):
+    return f.get('_file', '')
+
+
+def translate_all(world, order):
+    fns = []
+    names = {}
+    for f in order:
+        fn = Fn()
+        fn.node = f
+        fn.name = f['name']
+        names[fn.name] = names.get(fn.name, 0) + 1
+        fn.cname = fn.name if names[fn.name] == 1 else '%s_o%d' % (fn.name, names[fn.name])
+        fn.kind = func_kind(fn.name)
+        fn.mangled = f.get('mangledName', '')
+        fn.qual = f['type']['qualType']
+        fn.err = None
+        fn.ctx = None
+        fn.id = len(fns)
+        if fn.kind == 'A':
+            fn.err = 'Append function (reads and rewrites an existing message): outside the setter/parser IR'
+        else:
+            try:
+                ex = Exec(world, f, fn.kind)
+                fn.ctx = ex.run()
+                if fn.kind == 'S':
+                    fn.coq = coq_ws(fn.ctx.stmts)
+                    if fn.ctx.dest is not None:
+                        coq_e(fn.ctx.dest)
+                else:
+                    fn.coq = coq_ps(fn.ctx.stmts)
+            except Untr as e:
+                fn.err = str(e)
+                fn.sigctx = getattr(ex, 'c', None)
+                fn.ctx = None
+            except (KeyError, IndexError, TypeError, AttributeError, ValueError) as e:
+                fn.err = 'translator error: %r' % (e,)
+                fn.ctx = None
+        fns.append(fn)
+    return fns
+
+
+def load_world():
+    world = World()
+    for f in SRC_FILES:
+        world.add(clang_dump(f, 'N2k'))
+    world.add(clang_dump('NMEA2000.cpp', 'SetHeartbeat'))
+    return world
+
+
+def translate_world():
+    """translate; types that the name filter missed (tSatelliteInfo, tBattTempNoSensor ...) are fetched and the translation is repeated"""
+    world = load_world()
+    fetched = set()
+    for _ in range(4):
+        fns = translate_all(world, collect(world))
+        new = sorted(t for t in world.unknown_types if t not in fetched)
+        if not new:
+            break
+        for t in new:
+            fetched.add(t)
+            world.add(clang_dump('N2kMessages.cpp', t))
+        world.unknown_types = set()
+    return world, fns
+
+
+def debug_main():
+    world, fns = translate_world()
+    ok = [f for f in fns if f.err is None]
+    print('functions', len(fns), 'translated', len(ok))
+    for f in fns:
+        if f.err:
+            print('UNTRANSLATED', f.cname, '::', f.err)
+    if len(sys.argv) > 2:
+        for f in fns:
+            if f.cname == sys.argv[2] and f.ctx:
+                print(f.coq)
+                print('guard', f.ctx.guard, 'pgn', f.ctx.pgn, 'prio', f.ctx.prio, 'dest', f.ctx.dest)
+                print('ins', [(d['lv'], d['kind']) for d in f.ctx.sig.ins])
+                print('outs', [(d['lv'], d['kind'], d.get('size')) for d in f.ctx.sig.outs])
+
+
+if __name__ == '__main__' and len(sys.argv) > 1 and sys.argv[1] == '--debug':
+    debug_main()
